@@ -63,6 +63,28 @@ def _run_lpe(mod, ob, exclude):
     res = eng.explore(lambda: fn(params))
     if res["verdict"] == "cex":
         rep = lpe.ConcreteEngine(res["inputs"]).run(lambda: fn(params))
+        if rep.get("verdict") != "cex" and ob.get("replay_zones"):
+            # counterexamples that involve naive (local) times: replay under each process zone
+            import os
+            import time as _t
+
+            old = os.environ.get("TZ")
+            try:
+                for z in ob["replay_zones"]:
+                    os.environ["TZ"] = z
+                    _t.tzset()
+                    rep = lpe.ConcreteEngine(res["inputs"]).run(lambda: fn(params))
+                    if rep.get("verdict") == "cex":
+                        rep["zone"] = z
+                        break
+            finally:
+                if old is None:
+                    os.environ.pop("TZ", None)
+                else:
+                    os.environ["TZ"] = old
+                _t.tzset()
+            if rep.get("verdict") != "cex":
+                rep["unrealised_zone_model"] = True
         res["replay"] = rep
     return res
 
@@ -199,6 +221,10 @@ def report(prop, tier, seed, mod, obs, results, pre, t0):
             replays += 1
             if rep.get("verdict") == "cex":
                 violations.append(r)
+            elif rep.get("unrealised_zone_model"):
+                # the solver chose local UTC offsets that none of the replay zones has
+                r["msg"] = f"candidate needs a local-offset model that none of the replay zones realises ({_short(r.get('msg'), 200)})"
+                inconclusive.append(r)
             elif r.get("engine") == "ch":
                 # CrossHair's models of some library operations are approximate; a candidate that
                 # the real code does not reproduce decides nothing
